@@ -113,6 +113,33 @@ def cases(ctx, zone: str):
             version = [None, *VERSIONS][i % 6]
             yield histories.with_reply_faults(rng, {"tz": zone, "version": version, "metric": bool(i % 2),
                                                     "steps": histories.rich_history(rng, version, rng.choice([20, 60, 150]))})
+    # two gateways in one process, both built without a Config as in the README; the neighbour is reconfigured (imperial,
+    # other version), filled and used: the gateway under test still answers from ITS configuration, registry and buffer
+    if zone == ZONES[0] or zone == "UTC":
+        for version, sleeping, stored, message in itertools.product([None, *VERSIONS], (False, True), (False, True), MESSAGES):
+            if ctx.mine():
+                yield {"tz": zone, "version": version, "neighbour": True,
+                       "steps": prefix(version, sleeping, stored, False) + [["rx", message + "\n"], ["rx", "1;255;3;0;6;\n"],
+                                                                            ["rx", "1;0;2;0;0;\n"], ["rx", "1;255;3;0;22;\n"]]}
+        for i in range(ctx.pick(60, 3000) // ctx.shard_count):
+            version = [None, *VERSIONS][i % 6]
+            yield {"tz": zone, "version": version, "neighbour": True,
+                   "steps": histories.rich_history(rng, version, rng.choice([20, 60]))}
+    # the registry comes from the file named in the Config, loaded at context entry (a gateway record, node 0, among the
+    # nodes): what the controller may assume about the GATEWAY's version is what was set or reported in this run - with
+    # no version known every decoded message is still followed by the version query (C05), each request still answered
+    if zone == ZONES[0] or zone == "UTC":
+        for version, gw_version, message in itertools.product([None, *VERSIONS], ("1.4", "2.0", "2.2", "2.3.2"), MESSAGES):
+            if not ctx.mine():
+                continue
+            records = {"0": {"node_id": 0, "node_type": 18, "protocol_version": gw_version, "sketch_name": "gw",
+                             "sketch_version": "1", "battery_level": 0, "heartbeat": 0, "sleeping": False, "children": {}},
+                       "1": {"node_id": 1, "node_type": 17, "protocol_version": "2.0", "sketch_name": "s",
+                             "sketch_version": "1", "battery_level": 5, "heartbeat": 2, "sleeping": False,
+                             "children": {"0": {"child_id": 0, "child_type": 6, "description": "temp",
+                                                "values": {"0": "20.5"}}}}}
+            yield {"tz": zone, "version": version, "session_file": records,
+                   "steps": [["rx", message + "\n"], ["rx", "1;0;1;0;0;22\n"], ["rx", "1;255;3;0;6;\n"]]}
     # the application flips the unit system on the live gateway between config requests
     for version in [None, *VERSIONS]:
         for first in (True, False):
